@@ -3,3 +3,4 @@ import CprocVerif.Props.C15
 import CprocVerif.Props.C16
 import CprocVerif.Props.C03
 import CprocVerif.Props.C20
+import CprocVerif.Props.C17
